@@ -147,6 +147,9 @@ func verifC11Facts() string {
 		}
 		out = append(out, fmt.Sprintf("%s life=%d fix=%d sup=%d dh=%d", name, p.MaxTxnLife, b(p.FixTransactionLeases), b(p.SupportTransactionLeases), p.DeeperBlockHeaderHistory))
 	}
+	// the hand-grown per-LastValid list of loadFromDisk starts at this capacity and doubles: the fat-LastValid stream
+	// of the generator is sized around these thresholds
+	out = append(out, fmt.Sprintf("lvcap=%d", initialLastValidArrayLen))
 	return strings.Join(out, " ; ")
 }
 
@@ -711,6 +714,90 @@ func (g *verifC11Gen) block() {
 	g.pending = nil
 }
 
+// fatCase: the "fat LastValid" stream. k committed transactions share ONE LastValid (and a third of them hold a lease
+// each), spread over `split` rounds; everything is flushed to the tracker DB, the ledger is restarted (loadFromDisk
+// rebuilds the per-LastValid txid lists, growing them by hand at initialLastValidArrayLen, 2x, 4x, ...), and the first,
+// the ones around every growth threshold, the last and a few random ones are re-submitted — to Ledger.CheckDup and to
+// the evaluator — in every remaining round of their window, with a second restart on the way.
+func (g *verifC11Gen) fatCase(k, split int) {
+	const life = 6
+	g.life, g.fix, g.sup, g.dh, g.lb = life, 1, 1, uint64(g.rng.Intn(2)), uint64(g.rng.Intn(2))
+	g.latest, g.nextID = 0, 0
+	g.committed, g.pending, g.tried = nil, nil, nil
+	g.run(fmt.Sprintf("reset life=%d fix=%d sup=%d dh=%d lb=%d", g.life, g.fix, g.sup, g.dh, g.lb))
+	lv := uint64(1 + life)
+	var toks []string
+	for r := 1; r <= split; r++ {
+		g.run("begin")
+		n := k / split
+		if r == split {
+			n = k - len(toks)
+		}
+		for i := 0; i < n; i++ {
+			j := len(toks)
+			snd, lease := uint64(j%verifC11Senders), uint64(0)
+			if j%3 == 0 { // a distinct (sender, lease) each: lease ids stay below 256 (one byte in the harness encoding)
+				snd, lease = uint64((j/3)%verifC11Senders), uint64(1+(j/3)/verifC11Senders)
+			}
+			tok := verifC11Tok(g.id(), snd, 1, lv, lease)
+			if g.run("add "+tok) == "ok" {
+				toks = append(toks, tok)
+			}
+		}
+		if strings.HasPrefix(g.run("end"), "r=") {
+			g.latest++
+		}
+	}
+	// the probes: positions around the growth thresholds c, 2c, 4c of the rebuilt list, both ends, a few random
+	c := initialLastValidArrayLen
+	pos := []int{0, 1, c - 2, c - 1, c, c + 1, 2*c - 1, 2 * c, 2*c + 1, 3*c - 1, 3 * c, 4*c - 1, 4 * c, len(toks) - 2, len(toks) - 1}
+	for i := 0; i < 6; i++ {
+		pos = append(pos, g.rng.Intn(max(len(toks), 1)))
+	}
+	probe := func(evalToo bool) {
+		cur := g.latest + 1
+		seen := map[int]bool{}
+		for _, p := range pos {
+			if p < 0 || p >= len(toks) || seen[p] {
+				continue
+			}
+			seen[p] = true
+			g.run(g.queryOp(cur, []string{toks[p]}, 0))
+			if x, _ := verifC11ParseTx(toks[p]); x.lease != 0 {
+				g.run(g.queryOp(cur, []string{g.sibling(toks[p], cur)}, 0))
+			}
+		}
+		g.run(g.queryOp(cur, []string{g.fresh(cur)}, 0))
+		g.run("begin")
+		if evalToo {
+			for p := range seen {
+				g.run("test " + toks[p])
+				g.run("add " + toks[p])
+			}
+			g.run("add " + g.fresh(cur))
+		}
+		if strings.HasPrefix(g.run("end"), "r=") {
+			g.latest++
+		}
+	}
+	probe(false) // round split+1, before any restart (an empty block, so that the flush below covers the fat rounds)
+	for g.latest < uint64(split)+g.lb {
+		g.run("begin")
+		if strings.HasPrefix(g.run("end"), "r=") {
+			g.latest++
+		}
+	}
+	g.run("commit")
+	g.run("reload")
+	probe(true)
+	g.run("commit")
+	g.run("reload")
+	for g.latest < lv {
+		probe(g.latest+1 == lv || g.rng.Chance(50)) // up to the last round of the window, and one past it
+	}
+	g.sinceFlush = 0
+}
+
 func (g *verifC11Gen) oneCase() {
 	lives := []uint64{1, 2, 2, 3, 3, 4, 4, 5, 6, 8}
 	g.life = lives[g.rng.Intn(len(lives))]
@@ -778,6 +865,15 @@ func TestVerifC11(t *testing.T) {
 	} else {
 		run("facts")
 		g := &verifC11Gen{rng: vh.NewRng(vh.Seed()), run: run}
+		// fat-LastValid stream first: list sizes around every growth threshold of loadFromDisk's hand-grown lists
+		c := initialLastValidArrayLen
+		fat := []int{c - 1, c, c + 1, 2*c - 1, 2 * c, 2*c + 1, 4*c + 1}
+		if vh.Thorough() {
+			fat = append(fat, c+1, 2*c+1, 3*c+1, 4*c, 4*c+1, 8*c+1)
+		}
+		for _, k := range fat {
+			g.fatCase(k, []int{1, 3}[g.rng.Intn(2)])
+		}
 		for i, n := 0, vh.Budget(100, 1500); i < n; i++ {
 			g.oneCase()
 		}
